@@ -484,6 +484,46 @@ where
     Ok(())
 }
 
+/// A weight whose `Display` hands its text to the formatter piecewise - one `write_char` per character, or short
+/// `write_str` pieces, or one `write!` per character (chosen by the text's length) - instead of one `write_str`, as
+/// `char` weights and hand-written `Display` impls do.  `Debug` is that of the text.
+pub struct Piecewise(pub String);
+impl AsRef<str> for Piecewise {
+    fn as_ref(&self) -> &str {
+        &self.0
+    }
+}
+impl std::fmt::Debug for Piecewise {
+    fn fmt(&self, f: &mut std::fmt::Formatter<'_>) -> std::fmt::Result {
+        <str as std::fmt::Debug>::fmt(&self.0, f)
+    }
+}
+impl std::fmt::Display for Piecewise {
+    fn fmt(&self, f: &mut std::fmt::Formatter<'_>) -> std::fmt::Result {
+        use std::fmt::Write;
+        let cs: Vec<char> = self.0.chars().collect();
+        match cs.len() % 3 {
+            0 => {
+                for &c in &cs {
+                    f.write_char(c)?;
+                }
+            }
+            1 => {
+                for piece in cs.chunks(2) {
+                    let t: String = piece.iter().collect();
+                    f.write_str(&t)?;
+                }
+            }
+            _ => {
+                for &c in &cs {
+                    write!(f, "{}", c)?;
+                }
+            }
+        }
+        Ok(())
+    }
+}
+
 fn dot_case_ty<Ty: EdgeType>(cx: &mut Cx, rng: &mut Rng) -> R {
     let n = rng.below(if cx.small { 4 } else { 7 });
     let mut sg = StableGraph::<String, String, Ty, u32>::with_capacity(0, 0);
@@ -510,6 +550,8 @@ fn dot_case_ty<Ty: EdgeType>(cx: &mut Cx, rng: &mut Rng) -> R {
     dot_on(cx, rng, &sg, "StableGraph/holes")?;
     let gg: Graph<String, String, Ty, u32> = Graph::from(sg.clone());
     dot_on(cx, rng, &gg, "Graph")?;
+    let gp: Graph<Piecewise, Piecewise, Ty, u32> = gg.map(|_, w| Piecewise(w.clone()), |_, w| Piecewise(w.clone()));
+    dot_on(cx, rng, &gp, "Graph<piecewise-Display>")?;
     // simple-graph types: first weight wins
     let mut csr = Csr::<String, String, Ty, u32>::new();
     let mut mg = MatrixGraph::<String, String, std::collections::hash_map::RandomState, Ty, Option<String>, u16>::with_capacity(0);
